@@ -39,6 +39,7 @@ type Env struct {
 	initAllow map[string]bool
 	byName    map[string]*ssa.Function
 	CKernels  *cKernels
+	Tier      int
 }
 
 type crashPanic struct{ at string }
